@@ -46,6 +46,9 @@ type c15Case struct {
 	// (1: decodes another record into it, 2: zeroes it); the reader must keep
 	// describing the record it was built from.
 	Overwrite int `json:"overwrite,omitempty"`
+	// EvType, if non-zero, replaces the record's event/reading type code
+	// (threshold = 01h): it has no bearing on the analog format or the formula
+	EvType int `json:"evtype,omitempty"`
 	// Short: if > 0, the judged reply carries a normal completion code and only
 	// Short-1 data bytes (no reading at all / no flags byte): that is not a
 	// reading, whatever an earlier poll returned.
@@ -76,6 +79,9 @@ func c15Record(c c15Case) []byte {
 	d[7], d[8] = 0x01, 0x01
 	d[15] = byte(c.Fmt) << 6
 	d[16] = 0x01
+	if c.EvType != 0 {
+		d[16] = byte(c.EvType)
+	}
 	d[18] = byte(c.Lin) & 0x7f
 	m, b := uint16(c.M)&0x3ff, uint16(c.B)&0x3ff
 	d[19], d[20] = byte(m), byte(m>>8)<<6
@@ -407,6 +413,12 @@ func runC15(r *rep.R) {
 					do(c15Case{Raw: raw, Fmt: 2, Lin: lin, M: 3, B: -5, K1: 1, K2: -1, Flags: fl, Prev: prev, PrevRaw: raw ^ 0xFF, hasPrev: true})
 				}
 			}
+		}
+	}
+	// (g') records of every event/reading type code
+	for ev := 1; ev < 256; ev++ {
+		for f := 0; f < 3; f++ {
+			do(c15Case{Raw: 0x5A, Fmt: f, Lin: ev % 12, M: 7, B: -3, K1: 1, K2: -2, Flags: 0xC0, EvType: ev})
 		}
 	}
 	// (g) the record value is reused by the caller after the reader was built
